@@ -7,8 +7,10 @@ Verif.Gen.PrecTables.  Lemmas: Verif.Proofs.Pratt.
 -/
 import Verif.Proofs.Pratt
 import Verif.Proofs.PrattTy
+import Verif.Proofs.PrattAmp
 namespace Verif.Properties.C38
 open Verif.Gen.PrecTables Verif.Model.Front.Syn Verif.Model.Front.StrLit Verif.Proofs.Pratt
+open Verif.Proofs.PrattRT Verif.Proofs.PrattTy
 
 /-! ## Fact obligations over the regenerated tables -/
 
@@ -118,18 +120,61 @@ example : parseAll (printE (.binary .mul (.binary .add (.ident "a") (.ident "b")
 
 /-! ## Round trip theorems -/
 
-/-- `expr_roundtrip_partial`: for every expression built from identifiers, non-negative … (see
-    `Verif.Proofs.Pratt.RT`) the parser port applied to the printer port's output returns the
-    expression.
+/-- `powers_linear` (fact obligation): on the regenerated tables every parser binding power is
+    `10 · (AST precedence rank + 1)`.  This is the numeric form of `tables_consistent` that the Pratt
+    argument uses as its bridge between `precedence()` ranks and binding powers (`Verif.Proofs.PrattRT`:
+    `lbp_eq`, `bp_eq`, `rbp_eq`, proved by case analysis over the same tables). -/
+theorem powers_linear : ∀ a ∈ levels, a.2 = 10 * (a.1 + 1) := by decide
 
-    Full statement (NOT proved): `∀ e : Expr, Canon e → parseAll (printE e) = some e` for the whole
-    fragment of `ExprSyntax.lean` (`Canon`: what the parser can produce — no `-` applied to a
-    non-negative literal, identifiers are not keywords; and no `&(&x)`, see `ref_of_ref_witness`).
-    Proved here: see `Verif.Proofs.Pratt.RT` for the sub-fragment. -/
-theorem expr_roundtrip_partial (e : Expr) (h : RT e) : parseAll (printE e) = some e :=
-  rt_roundtrip e h
+/-- `expr_parse_print` — the generalised Pratt statement.  For every well-formed expression `e`
+    (`Expr.wf`), every right binding power `rbp` below the left binding power of all operators on the
+    unparenthesised left spine of `e` (`topLbp`), every token suffix `rest` whose first token neither
+    binds tighter than the power at which the last operand of `e` was parsed (`rlvl`) nor continues a
+    type annotation (`qFree`), and every fuel `F ≥ 4·|printExpr e| + b`: parsing `printExpr e ++ rest`
+    at `rbp` is the parser's loop continued on `e` and `rest` (with fuel `b`). -/
+theorem expr_parse_print (e : Expr) (hwf : e.wf = true) (rbp : Nat) (rest : List Tok) (b : Nat)
+    (r : Expr × List Tok) (F : Nat) (h1 : rbp < topLbp e) (h2 : exprLbp rest ≤ rlvl e) (h3 : qFree rest = true)
+    (hl : loop b rbp e rest = some r) (hF : 4 * (printExpr e).length + b ≤ F) :
+    parseExpr F rbp (printExpr e ++ rest) = some r :=
+  parse_print e hwf rbp rest b r F h1 h2 h3 hl hF
 
-example : RT (.ident "x") := rt_example
+/-- `expr_roundtrip_partial` — **`parseAll (printE e) = some e` for every well-formed expression of the
+    ports' fragment**: identifiers, integer / fixed-point / boolean / nil / void literals, the prefix
+    operators `-` `!` `*` `<-`, references `&e`, force `e!`, all 19 binary operators at all precedence
+    levels with their associativity (including right-associative `??` and `>>` lexed as two `>`), the
+    casts `as` `as?` `as!` with (resource) type annotations over the type sub-language, the conditional,
+    member access `.` / `?.` and indexing — arbitrarily nested, with the printer's parenthesisation
+    rules (`parenthesizedExpressionDoc`, `BinaryExpression.Doc`, the integer-receiver rule) against
+    the parser's binding powers, via the regenerated tables.  `printE` is the printed token list as the
+    lexer sees it (`& &` merged to `&&`).
+
+    `Expr.wf` (`Verif.Model.Front.ExprWf`) = what the parser can produce (identifiers are not
+    keywords, a negative integer literal is not zero, `-` is not applied to a non-negative literal)
+    minus the recorded findings: `&(&x)` (`ref_of_ref_witness`) and comparison chains
+    `(a < b) > …` (`comparison-chain-reparsed-as-type-arguments`; the real parser's type-argument
+    speculation after `<` is outside the port).
+
+    `_partial` because the fragment `Expr` is not the whole expression language.  NOT in the port and
+    therefore covered by the stream only (Go-only oracle): invocation (with type arguments / labels),
+    array, dictionary, string and string-template literals, paths, `create` / `destroy` / `attach`,
+    function expressions; statements and declarations (`stmt_decl_roundtrip`: CC only). -/
+theorem expr_roundtrip_partial (e : Expr) (h : e.wf = true) : parseAll (printE e) = some e :=
+  Verif.Proofs.PrattAmp.expr_roundtrip e h
+
+/-- non-vacuity: a well-formed expression with every construct, and its printed form -/
+example : (Expr.cond (.binary .coalesce (.member true (.force (.ident "a")) "m")
+      (.binary .coalesce (.index (.ident "b") (.int true "1")) (.unary .move (.ident "c"))))
+    (.cast .failable (.ref (.binary .shr (.ident "x") (.fix false "1.0"))) true (.optional (.optional (.nominal ["T"]))))
+    (.unary .minus (.unary .not (.binary .mul (.void) (.nil))))).wf = true := by decide
+example : lexemes (printE (.binary .coalesce (.member true (.force (.ident "a")) "m")
+      (.binary .coalesce (.index (.ident "b") (.int true "1")) (.unary .move (.ident "c"))))) =
+    ["a", "!", "?.", "m", "??", "b", "[", "-", "1", "]", "??", "<-", "c"] := by decide
+/-- the recorded findings are outside the domain -/
+example : (Expr.ref (.ref (.ident "x"))).wf = false := by decide
+example : (Expr.binary .gt (.binary .lt (.ident "a") (.ident "b")) .void).wf = false := by decide
+example : (Expr.binary .lt (.ident "a") (.binary .gt (.ident "b") (.ident "c"))).wf = false := by decide
+/-- the canonical-form conditions are needed: the parser folds `-` into a literal -/
+example : parseAll (printE (.unary .minus (.int false "1"))) = some (.int true "1") := by decide
 
 /-- `type_roundtrip`: for every type of the ports' type sub-language (nominal paths, optionals,
     unauthorized references, arbitrarily nested) that the parser can produce (`Ty.wf`: the path is
@@ -145,19 +190,17 @@ example : (Ty.optional (.reference (.optional (.optional (.reference (.nominal [
 example : lexemes (mergeQ (printTy (.optional (.reference (.optional (.optional (.reference (.nominal ["A", "B"]))))))))
     = ["&", "(", "&", "A", ".", "B", "??", ")", "?"] := by decide
 
-/-- `string_escape_roundtrip_partial`: un-escaping the quoted form of a string returns the string, for
-    every string of runes that `QuoteString` writes without a `\u{…}` escape (printable ASCII, NUL,
-    `\n`, `\r`, `\t`, `\\`, `"`).
-    Full statement (NOT proved; covered by the `pp str` correspondence ops on every run, including all
-    pairs over a boundary alphabet): `∀ cs, parseStringLiteral (quoteString cs) = some cs`. -/
-theorem string_escape_roundtrip_partial (cs : List Char) (h : ∀ c ∈ cs, Simple c) :
-    parseStringLiteral (quoteString cs) = some cs :=
-  quote_roundtrip_simple cs h
+/-- `string_escape_roundtrip`: un-escaping the quoted form of **any** string of Unicode scalar values
+    returns the string (ports of `QuoteString` / `QuoteStringInner` and `parseStringLiteralContent`):
+    the single-character escapes, printable ASCII written verbatim, and the `\u{…}` escape with
+    `strconv.FormatInt(_, 16)` digits for everything else. -/
+theorem string_escape_roundtrip (cs : List Char) : parseStringLiteral (quoteString cs) = some cs :=
+  quote_roundtrip cs
 
 example : Simple 'a' ∧ Simple '\n' ∧ Simple '"' ∧ Simple '\\' := by decide
 example : parseStringLiteral (quoteString ['a', '"', '\n', '\\', 'z']) = some ['a', '"', '\n', '\\', 'z'] :=
-  string_escape_roundtrip_partial _ (by decide)
-/-- outside the proved region, concretely: U+00E9 and U+1F600 -/
+  string_escape_roundtrip _
+/-- concretely: U+00E9 and U+1F600 -/
 example : parseStringLiteral (quoteString [Char.ofNat 0xe9, Char.ofNat 0x1F600]) = some [Char.ofNat 0xe9, Char.ofNat 0x1F600] := by
   decide
 example : quoteString [Char.ofNat 0xe9] = "\"\\u{e9}\"".toList := by decide
